@@ -19,6 +19,9 @@ TITLES = {
  "C17": "garbage collection removes expired and ephemeral events and nothing else",
 }
 
+EXTRA_RUN = {"C01": ["RELAY"]}     # C01 also runs the live-matching suite of the relay model
+
+
 def blocks(path):
     src = open(path).read()
     hdr = []
@@ -186,7 +189,8 @@ def main():
         open(os.path.join(COQ, "Props", pid + ".v"), "w").write(text)
         os.makedirs(os.path.join(COQ, pid), exist_ok=True)
         run = "(* %s: union of the backend models' wire suites. Generated by tools/gen_props.py. *)\nFrom NR Require Import Lib.Base Lib.Wire.\n" % pid
-        mods = [u for u in used if os.path.exists(os.path.join(COQ, u, "Run.v"))]
+        mods = [u for u in used + EXTRA_RUN.get(pid, []) if os.path.exists(os.path.join(COQ, u, "Run.v"))]
+        mods = list(dict.fromkeys(mods))
         for u in mods:
             run += "From NR Require %s.Run.\n" % u
         run += "Definition suites := " + " ++ ".join("NR.%s.Run.suites" % u for u in mods) + ".\nDefinition dispatch := dispatch_in suites.\n"
